@@ -9,9 +9,10 @@ Streams
   F1  Server.parse_command on single lines (real StreamReader), model fn 0
   F2  BaseClient.command(cmd, censor_after=k), model fn 1
   S1  whole logins with the real Client against the real Server on simnet (accepted, rejected,
-      unknown user, anonymous, user without password), model fn 4 (both loggers)
+      unknown user, anonymous, user without password), model fn 4 (both loggers); + a user manager whose
+      authenticate() raises (the error path of PASS: dispatcher traceback), oracle only
   S2  raw control-channel scripts (simnet.Raw) with odd verb spellings: PASS before USER, wrong
-      then right then repeated PASS, PASS after an unknown USER, bare PASS; model fn 2
+      then right then repeated PASS, PASS after an unknown USER, bare PASS; model fn 2; + authenticate() raising (oracle only)
   S3  Client.login's state machine against SCRIPTED servers: the real aioftp.Client (connect + login)
       on simnet against a peer that sends a fixed script of reply lines whatever it is told --
       bounded-exhaustive over words of continuing replies {331, 332, multi-line 331} followed by a
@@ -45,20 +46,23 @@ ID = "C20"
 EXTRACT = "ExC20"
 TECHNIQUE = (
     "Coq proof of non-interference (equal log records for passwords of equal length) about an executable model of "
-    "Server.parse_command / write_line / USER+PASS handlers and Client.command / parse_line / login, parametric in "
+    "Server.parse_command / write_line / USER+PASS handlers and Client.command / parse_line / parse_response / login (login as a "
+    "program regenerated from the source: loop mask, censor_after as loop-carried variable, one branch per reply code), parametric in "
     "facts regenerated from the source by an ast taint pass over every logging call (Gen/Logging.v: argument sources, "
     "censor tuple, PASS prefix + censor index, PASS reply literals, flows of `rest`), closed whitelist obligation by "
     "vm_compute with a soundness proof; tied to the code by differential correspondence on LogRecord objects "
-    "(function level + real client/server login sessions on an in-memory network) and a marker/twin secrecy oracle"
+    "(function level + real client/server login sessions on an in-memory network, incl. a user manager that raises, + the real "
+    "Client.login against bounded-exhaustive scripted servers) and a marker/twin secrecy oracle"
 )
 LEVEL_TEXT = (
     "Theorems C20_server_log_hides_password, C20_server_stream_hides_password, C20_server_session_hides_password, "
-    "C20_client_log_hides_password, C20_client_login_records_hide_password, C20_login_session_hides_password, "
+    "C20_client_log_hides_password, C20_client_login_records_hide_password, C20_client_login_hides_password_any_server (the login "
+    "program regenerated from client.py against every script of reply lines), C20_login_program_condition_suffices, C20_login_session_hides_password, "
     "C20_outcome_independent, C20_pass_reply_fixed, C20_censored_args_are_stars, C20_pass_spellings and the checker "
     "soundness theorems C20_every_site_hides_server/client are proved for every verb spelling the server dispatches as "
     "PASS, every password string (LF-free at stream level), every line ending, every session prefix/suffix and user table "
     "(Closed under the global context); C20_check_log_sites, C20_modelled_sites_match and C20_pass_facts are closed "
-    "obligations over the logging-site inventory regenerated from /repo on every run. The model is hand-written; its "
+    "obligations over the logging-site inventory regenerated from /repo on every run, C20_login_program_ok over the regenerated login program. The model is hand-written; its "
     "tie to the code is the regenerated inventory plus a differential correspondence on captured LogRecord objects, so "
     "the assurance is a proof about the model plus regenerated structure plus sampled agreement of model and code."
 )
@@ -585,8 +589,12 @@ def correspondence(ctx, budget=None):
         "F1: parse_command on lines verb x separator x argument x ending (verbs: 6 PASS spellings, other verbs, non-ASCII "
         "look-alikes; arguments from a generator biased to blanks, '%'/'{}' directives, '*', non-ASCII, 1 char, up to 20000 chars), "
         "each with its marker twin; F2: client.command over commands x censor_after in {None,0,1,4,5,6,-1,-2,50}; "
-        "S1: real Client.login vs real Server on simnet for 5 login outcomes x passwords, each run twice (p and twin), a share "
-        "with asyncio debug mode; S2: raw scripts for 6 verb spellings x 4 login sequences x passwords, twice each. "
+        "S1: real Client.login vs real Server on simnet for 6 login outcomes (incl. authenticate() raising) x passwords, each run twice (p and twin), a share "
+        "with asyncio debug mode; S2: raw scripts for 6 verb spellings x 5 login sequences (incl. authenticate() raising) x passwords, twice each; "
+        "S3: real Client.connect+login against a scripted peer, bounded-exhaustive over every word of <= 3 (thorough 5) continuing "
+        "replies {331, 332, two-line 331} followed by {230, four-line 230, 530, 421, 333, EOF}, plus malformed scripts (code change "
+        "inside a multi-line reply, non-numeric / short / empty lines, 120), thorough: + random words; users x accounts rotate, "
+        "each script run with a password and its marker twin. "
         "A case is non-trivial when its (stream, verb/outcome, password) key is new."
     )
     xcheck = []
